@@ -89,13 +89,15 @@ func init() {
 				}
 				return "err:other"
 			}
-			pages := make([]string, len(info.Pages))
-			for i, p := range info.Pages {
-				pages[i] = c18Page(p)
-			}
-			return cRec(kv{"type", fmt.Sprint(int(info.Type))}, kv{"tstr", cStr(info.TypeString)},
-				kv{"total", fmt.Sprint(info.TotalPages)}, kv{"meta", c18Meta(info.Meta)},
-				kv{"levels", fmt.Sprint(info.Levels)}, kv{"root", fmt.Sprint(info.RootPage)}, kv{"pages", cList(pages)})
+			return held(func() string {
+				pages := make([]string, len(info.Pages))
+				for i, p := range info.Pages {
+					pages[i] = c18Page(p)
+				}
+				return cRec(kv{"type", fmt.Sprint(int(info.Type))}, kv{"tstr", cStr(info.TypeString)},
+					kv{"total", fmt.Sprint(info.TotalPages)}, kv{"meta", c18Meta(info.Meta)},
+					kv{"levels", fmt.Sprint(info.Levels)}, kv{"root", fmt.Sprint(info.RootPage)}, kv{"pages", cList(pages)})
+			})
 		})
 	})
 	register("detectIndexType", func(a []string) string {
